@@ -13,7 +13,8 @@ PROP = "C13"
 RULE = ("stereo-valid StereoMolGraphs: stars of every coordination class with EVERY descriptor ordering and parity (tetrahedral 48, "
         "tetrahedral with lone pair 12, square planar 24, trigonal bipyramidal 240, octahedral 1440) in two identifier pools "
         "(1..n; scattered positive ids, permuted insertion order), two-unit graphs (two tetrahedral centres, ring centres), isolated "
-        "E/Z double bonds with generate_bond_orders=True, organic molecules imported from RDKit (all stereoisomers): "
+        "chains of two / three directly bonded coordination centres (every class pair, the partner at every descriptor position, "
+        "every parity, four atom orders), a coordination centre with a tetrahedral ligand atom, E/Z double bonds with generate_bond_orders=True, organic molecules imported from RDKit (all stereoisomers): "
         "RDMol2StereoMolGraph(use_atom_map_number=True)(g._to_rdmol()[0]) has the same atoms, elements and bonds and, for every atom "
         "centred descriptor, a spatially identical descriptor of the same class on the same atom (E/Z descriptors too when bond orders "
         "are regenerated); the export does not change the exported graph.  distinct = graphs round-tripped")
@@ -43,6 +44,54 @@ def star_cases():
     return out
 
 
+# chains of directly bonded coordination centres (metal-metal bonds): every class pair that can share a bond, and a chain of three
+BONDED = [("Octahedral", "Octahedral"), ("Octahedral", "TrigonalBipyramidal"), ("TrigonalBipyramidal", "TrigonalBipyramidal"),
+          ("Octahedral", "SquarePlanar"), ("SquarePlanar", "SquarePlanar"), ("SquarePlanar", "TrigonalBipyramidal"),
+          ("Tetrahedral", "Octahedral"), ("Octahedral", "Octahedral", "Octahedral"), ("TrigonalBipyramidal", "Octahedral", "SquarePlanar")]
+METAL = {"Octahedral": "Co", "TrigonalBipyramidal": "Fe", "SquarePlanar": "Pt", "Tetrahedral": "C"}
+
+
+def bonded_centres(classes, tier):
+    """specs: centres 1..k bonded in a chain, every other position a distinct one-atom ligand; the bonded centres sit at every
+    position (pair: all combinations; chain of three: a stride) of each other's descriptors, every parity, four atom orders"""
+    k = len(classes)
+    lig = {}
+    atoms = {}
+    for c, cls in enumerate(classes, start=1):
+        nl = RS.NPOS[cls] - 1 - ((c > 1) + (c < k))
+        lig[c] = [10 * c + i for i in range(nl)]
+        atoms[c] = METAL[cls]
+        for i, a in enumerate(lig[c]):
+            atoms[a] = U.LIG[i]
+    bonds = [(c, c + 1) for c in range(1, k)] + [(c, a) for c in lig for a in lig[c]]
+    choices = []
+    for c, cls in enumerate(classes, start=1):
+        nb = ([c - 1] if c > 1 else []) + ([c + 1] if c < k else [])
+        npos = RS.NPOS[cls] - 1
+        slots = list(itertools.permutations(range(npos), len(nb)))
+        if k > 2:
+            slots = slots[:: 3 if tier == "quick" else 1]
+        ch = []
+        for sl in slots:
+            t = [None] * npos
+            for x, pos in zip(nb, sl):
+                t[pos] = x
+            rest = iter(lig[c])
+            t = [x if x is not None else next(rest) for x in t]
+            for par in RS.PARITIES[cls]:
+                ch.append((cls, (c, *t), par))
+        choices.append(ch)
+    allat = sorted(atoms)
+    orders = (allat, allat[::-1], list(range(k, 0, -1)) + [a for c in sorted(lig, reverse=True) for a in lig[c]],
+              [a for c in sorted(lig) for a in lig[c]] + list(range(1, k + 1)))
+    combos = list(itertools.product(*choices))
+    if k > 2:
+        combos = combos[:: 7 if tier == "quick" else 1]
+    for descs in combos:
+        for o, aorder in enumerate(orders):
+            yield o, U.mk(SMG, [(a, atoms[a]) for a in aorder], bonds if o % 2 == 0 else bonds[::-1], astereo=list(descs))
+
+
 def items(tier, seed):
     cases = star_cases()
     out = []
@@ -51,6 +100,8 @@ def items(tier, seed):
     out.append({"part": "two-unit", "tier": tier})
     out.append({"part": "multi-centre", "tier": tier})
     out.append({"part": "class-sequence", "tier": tier})
+    for i in range(len(BONDED)):
+        out.append({"part": "bonded-centres", "idx": i, "tier": tier})
     out.append({"part": "ez", "tier": tier})
     for i in range(len(R.organics())):
         out.append({"part": "organic", "idx": i, "tier": tier})
@@ -170,6 +221,11 @@ def run_item(item):
                                      astereo=[md, td])
                             roundtrip(m, out, item, f"multi-centre/{cls}/{order_first}-first")
         out["samples"].append({"part": "multi-centre"})
+        return out
+    if item["part"] == "bonded-centres":
+        classes = BONDED[item["idx"]]
+        for o, m in bonded_centres(classes, tier):
+            roundtrip(m, out, item, "bonded-centres/" + "-".join(c[:3] for c in classes))
         return out
     if item["part"] == "class-sequence":
         # the same centre / ligand identifiers exported under different descriptor classes one after the other in one
